@@ -51,8 +51,11 @@ def wrap_numbers(rng, nums):
     return lines
 
 
-def explicit_text(rng, m, fmt, name="gen"):
+def explicit_text(rng, m, fmt, name="gen", filler=None):
     n = len(m)
+    if filler is not None:
+        # TSPLIB files may carry an arbitrary value in the diagonal positions (br17: 9999); it is not a distance
+        m = [[(filler if i == j else m[i][j]) for j in range(n)] for i in range(n)]
     if fmt == "FULL_MATRIX":
         nums = [m[i][j] for i in range(n) for j in range(n)]
     elif fmt == "UPPER_ROW":
@@ -71,6 +74,7 @@ def harness(tier, seed):
     from moptipyapps.tsp.known_optima import list_resource_tours, opt_tour_from_resource
     from moptipyapps.tsp.tour_length import tour_length
     rng = random.Random(seed + 18)
+    rng_fill = random.Random(seed + 1812)
     viol, samples = [], []
     evals, distinct = 0, set()
     reps = 60 if tier == "quick" else 800
@@ -123,6 +127,18 @@ def harness(tier, seed):
                         viol.append((f"explicit/{fmt}", {"matrix": m, "text": txt}, f"loaded {loaded[fmt]}"))
                 except Exception as ex:
                     viol.append((f"explicit/{fmt}", {"matrix": m, "text": txt}, repr(ex)))
+            # the formats that have diagonal positions, with a non-zero filler there (own RNG: the main stream is untouched)
+            for fmt in ("FULL_MATRIX", "LOWER_DIAG_ROW", "UPPER_DIAG_ROW"):
+                fill = rng_fill.choice([9999, 1, 10 ** 7, max(max(r) for r in m)])
+                txt = explicit_text(rng_fill, m, fmt, filler=fill)
+                try:
+                    got = np.array(ti._from_stream(iter(txt), lambda _: 0)).tolist()
+                    evals += 1
+                    distinct.add(("filler", fmt, n, fill))
+                    if got != m:
+                        viol.append((f"explicit/{fmt}/diagonal-filler", {"matrix": m, "text": txt}, f"loaded {got}"))
+                except Exception as ex:
+                    viol.append((f"explicit/{fmt}/diagonal-filler", {"matrix": m, "text": txt}, repr(ex)))
         # --- coordinate instances
         pts_int = [(rng.randint(0, 2000), rng.randint(0, 2000)) for _ in range(n)]
         pts_dec = [(round(rng.uniform(-80, 80), rng.choice([1, 2, 4])), round(rng.uniform(-170, 170), 2)) for _ in range(n)]
@@ -232,6 +248,6 @@ def harness(tier, seed):
     viol = [v for v in viol if not (v[0] in seen or seen.add(v[0]))]
     return {"name": "tsplib", "evaluations": evals, "distinct_nontrivial": len(distinct) + ntours,
             "rule": f"all {ntours} shipped optimal tours (exhaustive over the data); generated matrices n <= 9 with values up to "
-                    "10^12/n: write/read round trip, four explicit formats with random line wrapping; generated integer and "
+                    "10^12/n: write/read round trip, four explicit formats with random line wrapping (the three with diagonal positions also with non-zero fillers there); generated integer and "
                     "decimal point sets (GEO also with two cities at the same location): EUC_2D, CEIL_2D, ATT, GEO vs independent TSPLIB95 formulas",
             "samples": samples, "violations": viol, "exhaustive": False}
